@@ -164,6 +164,10 @@ def native_history(cfg, cwd_unused, tdefs, steps, envdir, pre=(), post_rm=()):
     import tempfile, shutil
     scratch = tempfile.mkdtemp(prefix='tsrs-verif-fs-')
     try:
+        # `{CWD}` in a spelling stands for the (modelled) working directory: natively that is the scratch directory
+        sub = lambda x: None if x is None else x.replace('{CWD}', scratch)
+        envdir = sub(envdir)
+        steps = [(e, i, sub(d)) for e, i, d in steps]
         req = [['reset'], ['chdir', scratch]]
         req.append(['setenv', 'TS_RS_EXPORT_DIR', envdir] if envdir is not None else ['unsetenv', 'TS_RS_EXPORT_DIR'])
         for i, t in enumerate(tdefs):
